@@ -186,7 +186,19 @@ pub fn run(args: &Args) -> Report {
             // the strict error is the first problem in the file; the injected one is the only one unless the document is already faulty
             // (inside an open list the strict error may be a consequence of the injected one and carry another class:
             //  the property asks for the line of the token at which the problem was detected, not for the class)
-            let same_line = es.rsplit('@').next() == Some(&line.to_string());
+            let mut same_line = es.rsplit('@').next() == Some(&line.to_string());
+            // an element of an open list that fails in strict mode ends the list; the problem is then detected at the
+            // element's first token, which may stand on an earlier line than the injected token: accepted when no block
+            // boundary lies between the two lines
+            if let Some(sl) = es.rsplit('@').next().and_then(|x| x.parse::<usize>().ok()) {
+                let l = *line as usize;
+                if sl < l && l - sl <= 4 {
+                    let between: Vec<&str> = text.split('\n').skip(sl).take(l - sl - 1).collect();
+                    if !between.iter().any(|x| x.contains("/begin") || x.contains("/end")) {
+                        same_line = true;
+                    }
+                }
+            }
             if !same_line && !matches!(n, Loaded::Err(_)) {
                 if let Loaded::Ok(_, ln) = &n {
                     if log_text(ln).split(',').filter(|x| !x.is_empty() && !is_deprecation(x)).count() == 1 {
